@@ -240,6 +240,7 @@ def monC06 : ObsMonitor Obs M6 where
     | .nilnext _ => some m
     -- `RestartRoutine` & co. treat a cancelled root context as none
     | .cancelroot => some { m with hasCtx := false, susAll := true }
+    | .boff _ _ => some m
 
 /-! ## C07 -/
 
@@ -321,10 +322,11 @@ def M7.unleave (m : M7) (k : Nat) : M7 := { m with leavingK := m.leavingK.filter
 def M7.inv (m : M7) : Op → M7
   | .setKey k st => if st then (m.touch k).unleave k else m.unleave k
   | .syncKeys ks restart => if restart then ks.foldl (fun m k => (m.touch k).unleave k) m else ks.foldl (fun m k => m.unleave k) m
-  | .resetRoutine k _ => (m.touch k).unleave k
-  | .restartRoutine k _ => m.touch k
-  | .resetAll _ => { m.touchAll with leavingK := [] }
-  | .restartAll _ => m.touchAll
+  -- with condition functions the call may leave the routine (and a pending retry) alone: decided at `ret`
+  | .resetRoutine k cs => if cs.isEmpty then (m.touch k).unleave k else m
+  | .restartRoutine k cs => if cs.isEmpty then m.touch k else m
+  | .resetAll cs => if cs.isEmpty then { m.touchAll with leavingK := [] } else m
+  | .restartAll cs => if cs.isEmpty then m.touchAll else m
   | .setContext _ _ => m.touchAll
   | .addKeyRef k => (m.touch k).unleave k
   | .removeKey k | .rcRemoveKey k => m.unowe k
@@ -351,6 +353,11 @@ def M7.ret (m : M7) : Op → Res → M7
     { m with hasCtx := false, cleared := some false
              runs := m.runs.map fun r => if r.running then { r with mustCancel := true } else r }
   | .setContext (some _) _, _ => { m with hasCtx := true }
+  -- condition functions: the result says whether anything was reset / restarted
+  | .resetRoutine k cs, .existedReset _ r => if !cs.isEmpty && r then (m.touch k).unleave k else m
+  | .restartRoutine k cs, .existedReset _ r => if !cs.isEmpty && r then m.touch k else m
+  | .resetAll cs, .counts n _ => if !cs.isEmpty && n != 0 then { m.touchAll with leavingK := [] } else m
+  | .restartAll cs, .counts n _ => if !cs.isEmpty && n != 0 then m.touchAll else m
   | _, _ => m
 
 /-- a call that overlapped another one returned: only the reference table is kept exact; nothing is
@@ -366,6 +373,10 @@ def M7.weakRet (m : M7) : Op → Res → M7
   | .syncKeys _ _, .sync _ rm => rm.foldl (fun m k => m.touch k) m
   | .setContext none _, _ => { m with hasCtx := false }
   | .setContext (some _) _, _ => { m with hasCtx := true }
+  | .resetRoutine k cs, _ => if cs.isEmpty then m else (m.touch k).unleave k
+  | .restartRoutine k cs, _ => if cs.isEmpty then m else m.touch k
+  | .resetAll cs, _ => if cs.isEmpty then m else { m.touchAll with leavingK := [] }
+  | .restartAll cs, _ => if cs.isEmpty then m else m.touchAll
   | _, _ => m
 
 def monC07 : ObsMonitor Obs M7 where
@@ -438,6 +449,7 @@ def monC07 : ObsMonitor Obs M7 where
       | none => none
     | .advance => some { m with epoch := m.epoch + 1, advanced := true }
     | .nilnext _ => some m
+    | .boff _ _ => some m
     | .cancelroot =>
       -- every routine's context is cancelled; instances started with the cancelled context fail without
       -- entering their function, which the monitor cannot count: no retry is demanded any more, and nothing
